@@ -28,7 +28,17 @@
  *  - schedule(target, ...) targets the client's own stream or stream 0 of a VP (the shared target __parsec_schedule_vp
  *    uses from any thread, including the communication thread); sched_llp relies on exactly that (single_writer);
  *  - the communication-thread-style client only calls __parsec_schedule_vp and never selects;
- *  - a client only schedules tasks it owns (fresh ones, or tasks a selection returned to it). */
+ *  - a client only schedules tasks it owns (fresh ones, or tasks a selection returned to it).
+ *
+ * KNOWN DEFECT kept out of the default workload (knob `flush_multi=1` brings it in): __parsec_schedule_vp() retains the head
+ * of the local ring in es->next_task and removes it from the ring with parsec_list_item_ring_chop(), which (outside
+ * PARSEC_DEBUG_PARANOID) leaves the removed item's list_next/list_prev pointing at its former neighbours.
+ * __parsec_schedule_flush_private() passes that item to __parsec_schedule() as if it were a ring: the module walks / chops a
+ * "ring" made of stale pointers into tasks that are already linked in its own structures (ap/ip/spq/rnd: endless loop or a
+ * corrupted list in parsec_list_nolock_chain_sorted; other modules: tasks duplicated or lost).  Only rings of >= 2 tasks for
+ * the local VP are affected (a single task stays a proper singleton), so by default the harness only flushes a retained
+ * task that was alone in its ring; every violation reached after such a flush carries the tag
+ * [after-flush-of-retained-task-chopped-off-a-multi-task-ring]. */
 #define _GNU_SOURCE
 #include "../hx.h"
 #include "../../sim/mpi/simmpi.h"
@@ -45,14 +55,38 @@ extern void *(*hx_rank_mains[])(void *);
 enum { OP_SCHED, OP_SELECT, OP_RESCHED, OP_FLUSH, OP_PAUSE, OP_N };
 static const char *const opnames[] = {"sched", "select", "resched", "flush", "pause"};
 
-enum { PR_SYSQ, PR_OVERFLOW, PR_LHQ_PARENT, PR_LLP_OVERLAP, PR_LLP_MERGE, PR_LTQ_STEAL, PR_LTQ_BIGHEAP, PR_LIFO_STEAL, PR_RETAINED, PR_NEXT_TAKEN, PR_FLUSHED,
+/* reach probes.  The binary serves two properties; each gets its own probe table (chosen in main() from `--knob prop=`)
+ * so that a probe of the other property does not show up as "never fired".  All of them are computed from what the
+ * module reports (the distance returned by select) and from the stamp intervals of the calls -- nothing in /repo is hooked:
+ *  - system queue: select of lfq/lhq/ltq/pbq reports distance 1+nb_hierarch_queues for a task popped from the system queue;
+ *    if that task was scheduled with distance 0 it got there through the overflow push of parsec_hbbuffer_push_all(_by_priority)
+ *  - ltq steal: distance >= 2 (a neighbour's buffer) or the system queue: both go through heap_split_and_steal(); "split" when the
+ *    task was scheduled in a ring of >= 3 (such a ring makes heaps of >= 3 nodes unless every pair of neighbours shares no input)
+ *  - llp multi-writer: two schedule calls that both end in stream 0 of a VP, from different threads, with overlapping
+ *    [invoke,return] intervals -- the precondition of the "items were added in between" path of lifo_chain_sorted (the path
+ *    itself is not observable from outside) */
+enum { PR_SYSQ, PR_OVERFLOW, PR_LHQ_PARENT, PR_LLP_OVERLAP, PR_LTQ_STEAL, PR_LTQ_BIGHEAP, PR_LIFO_STEAL, PR_RETAINED, PR_NEXT_TAKEN, PR_FLUSHED,
        PR_OTHER_VP, PR_COMM, PR_FOREIGN0, PR_RESCHED, PR_TWO_VP, PR_TIE_OVERLAP, PR_DIST_LISTS, PR_SELECT_RACE, PR_N };
-static const char *const probe_names[] = {
+static const char *const probe_all[PR_N] = {
     "task_selected_from_system_queue", "hbbuffer_overflow_to_parent(dist0_task_from_sysq)", "lhq_task_found_in_parent_level_buffer",
-    "llp_overlapping_writers_on_stream0", "llp_merge_needed_with_overlapping_writer", "ltq_steal_from_neighbour_or_sysq_heap", "ltq_heap_of_3plus_stolen_from(split)",
+    "llp_overlapping_writers_on_stream0(multi_writer_merge_precondition)", "ltq_steal_from_neighbour_or_sysq_heap", "ltq_steal_from_heap_of_3plus(split)",
     "lifo_steal_from_other_stream", "next_task_retained", "next_task_taken_by_select", "next_task_flushed_to_scheduler",
     "ring_for_other_vp", "comm_thread_submission", "foreign_submission_to_stream0", "again_style_reschedule", "two_vp_run",
-    "c09_equal_priority_pair_from_overlapping_calls", "c09_spq_two_or_more_distance_lists_at_drain", "select_returned_null_while_tasks_pending"};
+    "equal_priority_pair_from_overlapping_calls_at_drain", "spq_two_or_more_distance_lists_at_drain", "select_returned_null_while_tasks_pending"};
+static const int probes_c08[] = {PR_SYSQ, PR_OVERFLOW, PR_LHQ_PARENT, PR_LLP_OVERLAP, PR_LTQ_STEAL, PR_LTQ_BIGHEAP, PR_LIFO_STEAL, PR_RETAINED, PR_NEXT_TAKEN, PR_FLUSHED,
+                                 PR_OTHER_VP, PR_COMM, PR_FOREIGN0, PR_RESCHED, PR_TWO_VP, PR_SELECT_RACE, -1};
+static const int probes_c09[] = {PR_FOREIGN0, PR_RESCHED, PR_TWO_VP, PR_TIE_OVERLAP, PR_DIST_LISTS, PR_SELECT_RACE, -1};
+static int probe_id[PR_N];                  /* logical probe -> id in the active table, -1: not part of it */
+static const char *probe_names[PR_N];
+static int nprobes;
+static void probe(int x) { if (probe_id[x] >= 0) sim_probe(probe_id[x]); }
+static void probes_select(int prop)
+{
+    const int *t = prop == 9 ? probes_c09 : probes_c08;
+    for (int i = 0; i < PR_N; i++) probe_id[i] = -1;
+    nprobes = 0;
+    for (int i = 0; t[i] >= 0; i++) { probe_id[t[i]] = nprobes; probe_names[nprobes++] = probe_all[t[i]]; }
+}
 
 static const char *const SCHEDS[] = {"lfq", "ap", "gd", "ip", "lhq", "ll", "llp", "ltq", "pbq", "rnd", "spq"};
 #define NSCHED 11
@@ -61,7 +95,8 @@ enum { S_LFQ, S_AP, S_GD, S_IP, S_LHQ, S_LL, S_LLP, S_LTQ, S_PBQ, S_RND, S_SPQ }
 static sched_shared_t SH;
 static hx_result_t *RES;
 static const hx_plan_t *PLAN;
-static int PROP, SCHED, IP_DIST;
+static int PROP, SCHED, IP_DIST, FLUSH_MULTI;
+static int flushed_multi;      /* a retained task that came out of a ring of >= 2 tasks was flushed (see KNOWN DEFECT below) */
 
 /* ---- bookkeeping ---- */
 enum { T_FREE = 0, T_OWNED, T_PREPARED, T_PENDING };
@@ -73,7 +108,7 @@ typedef struct {
     int nsched, nsel;
 } tinfo_t;
 static tinfo_t TI[SCH_MAX_TASKS];
-typedef struct { uint64_t inv, ret; int thr, api, target, distance, n; } call_t;
+typedef struct { uint64_t inv, ret; int thr, api, target, distance, n, nown; } call_t;
 #define MAX_CALLS (2 * HX_MAX_OPS + 64)
 static call_t CALLS[MAX_CALLS];
 static int ncalls;
@@ -87,7 +122,8 @@ typedef struct {
     int done;
 } client_t;
 static client_t CL[SCH_MAX_THR];
-static int retained[SCH_MAX_STREAMS];       /* model of es->next_task (info / probes only) */
+static int retained[SCH_MAX_STREAMS];       /* es->next_task as reported by the driver */
+static int retained_multi[SCH_MAX_STREAMS]; /* ... and whether it was chopped off a ring of >= 2 tasks */
 static int npending_vp[2];
 
 static int client_of_thr(int thr) { return thr == SCH_COMM_THR ? SCH_COMM_THR : thr % SH.nstreams; }
@@ -109,7 +145,7 @@ void schedh_ready(void)
     if (SH.got_streams != SH.nstreams || SH.got_nvp != SH.nvp || strcmp(SH.sched_name, SCHEDS[SCHED]))
         hx_fail(RES, "config-mismatch", "asked for sched=%s streams=%d vp=%d, runtime has sched=%s streams=%d vp=%d", SCHEDS[SCHED], SH.nstreams, SH.nvp,
                 SH.sched_name, SH.got_streams, SH.got_nvp);
-    if (SH.nvp > 1) sim_probe(PR_TWO_VP);
+    if (SH.nvp > 1) probe(PR_TWO_VP);
 }
 
 /* ---- the clients' programs ---- */
@@ -148,7 +184,7 @@ int schedh_next(int thr, sched_req_t *rq)
         rq->din[0] = (int)(mixh((uint64_t)id, 5) % 3);
         TI[id].state = T_PREPARED;
         TI[id].owner = ci;
-        sim_probe(PR_RESCHED);
+        probe(PR_RESCHED);
         return 1;
     }
     while (c->pc < PLAN->nops) {
@@ -210,6 +246,7 @@ int schedh_next(int thr, sched_req_t *rq)
             return 1;
         case OP_FLUSH:
             if (comm || PROP == 9) continue;
+            if (retained_multi[c->stream] && !FLUSH_MULTI) continue;       /* KNOWN DEFECT, see header */
             rq->kind = SCH_REQ_FLUSH;
             rq->target = c->stream;
             return 1;
@@ -241,7 +278,9 @@ void schedh_invoke(int thr, const sched_req_t *rq, int next_id)
             /* the retained task is handed to the scheduler of the stream at distance 0 */
             tinfo_t *t = &TI[next_id];
             t->dist = 0; t->call = cidx; t->pos = 0; t->via_flush = 1;
-            sim_probe(PR_FLUSHED);
+            probe(PR_FLUSHED);
+            int s = ci >= 0 ? CL[ci].stream : rq->target;
+            if (s >= 0 && s < SCH_MAX_STREAMS && retained[s] == next_id && retained_multi[s]) flushed_multi = 1;
         }
         sim_hash_event(0xF1000000ULL ^ (uint64_t)(thr + 2) << 32 ^ (uint64_t)(next_id + 2));
         cl->inv = sim_stamp();
@@ -251,8 +290,8 @@ void schedh_invoke(int thr, const sched_req_t *rq, int next_id)
     int comm = ci == SCH_COMM_THR;
     int posvp[2] = {0, 0};
     int per_vp = rq->api == SCH_API_VP || rq->api == SCH_API_VP_NULL;
-    if (comm) sim_probe(PR_COMM);
-    if (!per_vp && rq->target != own_stream) sim_probe(PR_FOREIGN0);
+    if (comm) probe(PR_COMM);
+    if (!per_vp && rq->target != own_stream) probe(PR_FOREIGN0);
     for (int i = 0; i < rq->n; i++) {
         int id = rq->ids[i];
         tinfo_t *t = &TI[id];
@@ -267,8 +306,9 @@ void schedh_invoke(int thr, const sched_req_t *rq, int next_id)
         t->via_flush = 0;
         t->nsched++;
         npending_vp[vp]++;
-        if (per_vp && !comm && vp != vp_of_stream(own_stream)) sim_probe(PR_OTHER_VP);
-        if (per_vp && comm && vp != 0) sim_probe(PR_OTHER_VP);
+        if (vp == vp_of_stream(own_stream)) cl->nown++;
+        if (per_vp && !comm && vp != vp_of_stream(own_stream)) probe(PR_OTHER_VP);
+        if (per_vp && comm && vp != 0) probe(PR_OTHER_VP);
     }
     (void)next_id;
     sim_hash_event(0x5C000000ULL ^ (uint64_t)(thr + 2) << 40 ^ (uint64_t)rq->api << 36 ^ (uint64_t)rq->distance << 24 ^ (uint64_t)rq->n << 12 ^ (uint64_t)(rq->n ? rq->ids[0] : 0));
@@ -283,7 +323,8 @@ void schedh_return(int thr, const sched_req_t *rq, int rc, int next_id)
     if (rc != 0) hx_fail(RES, "schedule-error", "%s returned %d", rq->kind == SCH_REQ_FLUSH ? "__parsec_schedule_flush_private" : "schedule", rc);
     int s = ci >= 0 ? CL[ci].stream : rq->target;
     if (s >= 0 && s < SCH_MAX_STREAMS && ci != SCH_COMM_THR) {
-        if (next_id >= 0 && retained[s] != next_id) sim_probe(PR_RETAINED);
+        if (next_id >= 0 && retained[s] != next_id) { probe(PR_RETAINED); retained_multi[s] = cidx >= 0 && CALLS[cidx].nown > 1; }
+        if (next_id < 0) retained_multi[s] = 0;
         retained[s] = next_id;
     }
     /* llp: two writers on stream 0 whose calls overlapped (the multi-writer path of lifo_chain_sorted needs that) */
@@ -298,14 +339,21 @@ void schedh_return(int thr, const sched_req_t *rq, int rc, int next_id)
             if (!a0 || !b0) continue;
             uint64_t bret = b->ret ? b->ret : UINT64_MAX;
             if (b->inv < a->ret && a->inv < bret) {
-                sim_probe(PR_LLP_OVERLAP);
-                if (a->distance > 0 || b->distance > 0 || a->n > 1 || b->n > 1) sim_probe(PR_LLP_MERGE);
+                probe(PR_LLP_OVERLAP);
+                
             }
         }
     }
 }
 
 void schedh_select_invoke(int thr, int stream) { (void)thr; (void)stream; }
+
+int schedh_drain_flush(int stream)
+{
+    if (!SH.drain_flush) return 0;
+    if (stream >= 0 && stream < SCH_MAX_STREAMS && retained_multi[stream] && !FLUSH_MULTI) return 0;   /* KNOWN DEFECT, see header */
+    return 1;
+}
 
 /* C09: is pending task p strictly before returned task r in the order the module documents? */
 static int strictly_before(const tinfo_t *p, const tinfo_t *r, int *tie_overlap)
@@ -329,7 +377,7 @@ void schedh_selected(int thr, int stream, int id, int distance, int from_next)
     hx_hash(RES, ((uint64_t)(thr + 2) << 48) ^ ((uint64_t)(stream + 1) << 40) ^ ((uint64_t)(id + 3) << 16) ^ (uint64_t)(id >= 0 ? (distance & 0xffff) : 0));
     sim_hash_event(0x5E000000ULL ^ (uint64_t)(thr + 2) << 40 ^ (uint64_t)(id + 3));
     if (id == -1) {
-        if (npending_vp[vp] > 0) sim_probe(PR_SELECT_RACE);
+        if (npending_vp[vp] > 0) probe(PR_SELECT_RACE);
         if (PROP == 9 && thr == SCH_DRAINER && npending_vp[vp] > 0) {
             int ex = -1;
             for (int i = 0; i < SH.ntasks; i++) if (TI[i].state == T_PENDING && TI[i].vp == vp) { ex = i; break; }
@@ -362,25 +410,25 @@ void schedh_selected(int thr, int stream, int id, int distance, int from_next)
                         SCHEDS[SCHED], stream, id, t->prio, t->dist, t->call, (unsigned long long)CALLS[t->call].inv, (unsigned long long)CALLS[t->call].ret, t->pos,
                         i, p->prio, p->dist, p->call, (unsigned long long)CALLS[p->call].inv, (unsigned long long)CALLS[p->call].ret, p->pos);
             }
-            if (tie) sim_probe(PR_TIE_OVERLAP);
+            if (tie) probe(PR_TIE_OVERLAP);
         }
         if (t->dist < 64 && !seen[t->dist]) ndist++;
-        if (SCHED == S_SPQ && ndist >= 2) sim_probe(PR_DIST_LISTS);
+        if (SCHED == S_SPQ && ndist >= 2) probe(PR_DIST_LISTS);
         if (RES->vclass) return;
     }
     /* reach probes from what select reports */
-    if (from_next) sim_probe(PR_NEXT_TAKEN);
+    if (from_next) probe(PR_NEXT_TAKEN);
     else {
         int sq = stream >= 0 && stream < SCH_MAX_STREAMS ? SH.sysq_distance[stream] : -1;
         if (is_local_queue_sched() && sq >= 0 && distance == sq) {
-            sim_probe(PR_SYSQ);
-            if (t->dist == 0) sim_probe(PR_OVERFLOW);
-            if (SCHED == S_LTQ) sim_probe(PR_LTQ_STEAL);
-        } else if (SCHED == S_LHQ && distance >= 2) sim_probe(PR_LHQ_PARENT);
-        else if (SCHED == S_LTQ && distance >= 2) { sim_probe(PR_LTQ_STEAL); if (CALLS[t->call].n >= 3) sim_probe(PR_LTQ_BIGHEAP); }
-        else if ((SCHED == S_LL || SCHED == S_LLP) && distance > 0) sim_probe(PR_LIFO_STEAL);
+            probe(PR_SYSQ);
+            if (t->dist == 0) probe(PR_OVERFLOW);
+            if (SCHED == S_LTQ) probe(PR_LTQ_STEAL);
+        } else if (SCHED == S_LHQ && distance >= 2) probe(PR_LHQ_PARENT);
+        else if (SCHED == S_LTQ && distance >= 2) { probe(PR_LTQ_STEAL); if (CALLS[t->call].n >= 3) probe(PR_LTQ_BIGHEAP); }
+        else if ((SCHED == S_LL || SCHED == S_LLP) && distance > 0) probe(PR_LIFO_STEAL);
     }
-    if (stream >= 0 && stream < SCH_MAX_STREAMS && from_next) retained[stream] = -1;
+    if (stream >= 0 && stream < SCH_MAX_STREAMS && from_next) { retained[stream] = -1; retained_multi[stream] = 0; }
     t->state = T_OWNED;
     t->owner = ci;
     t->nsel++;
@@ -409,13 +457,14 @@ static void gen(hx_plan_t *p, hx_rng_t *r)
     hx_set_knob(p, "nvp", nvp);
     hx_set_knob(p, "cpp", cpp);
     hx_set_knob(p, "nstreams", nstreams);
-    hx_set_knob(p, "topo", nvp == 1 ? hx_below(r, 3) : 0);
+    hx_set_knob(p, "topo", nvp == 1 ? hx_below(r, 6) : 0);
     hx_set_knob(p, "keep", hx_chance(r, 70));
     hx_set_knob(p, "rot", hx_below(r, nstreams));
     hx_set_knob(p, "drain_flush", hx_chance(r, 50));
     hx_set_knob(p, "drain_rt", hx_chance(r, 60));
     hx_set_knob(p, "drain_seed", hx_below(r, 1 << 16));
-    hx_set_knob(p, "ip_dist", hx_cli_knob("ip_dist", 0));
+    hx_set_knob(p, "ip_dist", hx_cli_knob("ip_dist", 1));
+    hx_set_knob(p, "flush_multi", hx_cli_knob("flush_multi", 1));
     int nthr = prop == 9 ? (int)hx_range(r, 1, 4) : (hx_chance(r, 75) ? (int)hx_range(r, 1, 4) : (int)hx_range(r, 5, 16));
     if (nthr > nstreams) nthr = nstreams;
     int comm = prop == 8 && hx_chance(r, 35);
@@ -452,7 +501,7 @@ static void init(void)
     setenv("HWLOC_SYNTHETIC", "pack:1 core:16 pu:1", 1);
     setenv("HWLOC_THISSYSTEM", "0", 1);
     char tmpl[] = "/tmp/verif_home_XXXXXX";
-    char *d = mkdtemp(tmpl);
+    char *d = hx_scratch_dir(tmpl);
     if (d) setenv("HOME", d, 1);
     extern char **environ;
     for (char **e = environ; *e;) {
@@ -469,6 +518,7 @@ static void plan_to_shared(const hx_plan_t *p)
     SCHED = (int)(hx_knob(p, "sched", 0) % NSCHED);
     if (SCHED < 0) SCHED = 0;
     IP_DIST = (int)hx_knob(p, "ip_dist", 0);
+    FLUSH_MULTI = (int)hx_knob(p, "flush_multi", 0);
     int nvp = (int)hx_knob(p, "nvp", 1), cpp = (int)hx_knob(p, "cpp", 16), ns = (int)hx_knob(p, "nstreams", 2);
     if (nvp < 1) nvp = 1;
     if (nvp > 2) nvp = 2;
@@ -531,7 +581,8 @@ static void run(const hx_plan_t *p, hx_result_t *res)
     ncalls = 0;
     fresh_next = 0;
     npending_vp[0] = npending_vp[1] = 0;
-    for (int s = 0; s < SCH_MAX_STREAMS; s++) retained[s] = -1;
+    for (int s = 0; s < SCH_MAX_STREAMS; s++) { retained[s] = -1; retained_multi[s] = 0; }
+    flushed_multi = 0;
     for (int ci = 0; ci < SCH_MAX_THR; ci++) { CL[ci].resched_id = -1; CL[ci].stream = -1; CL[ci].cur_call = -1; }
     for (int k = 0; k < SH.nclients; k++) { CL[SH.client_thr[k]].used = 1; CL[SH.client_thr[k]].stream = SH.client_stream[k]; }
     setenv("PARSEC_MCA_mca_sched", SCHEDS[SCHED], 1);
@@ -544,7 +595,7 @@ static void run(const hx_plan_t *p, hx_result_t *res)
     } else {
         static const char *const topos[] = {"pack:1 core:16 pu:1", "pack:2 core:8 pu:1", "pack:4 core:4 pu:1"};
         setenv("HWLOC_SYNTHETIC", topos[(unsigned)hx_knob(p, "topo", 0) % 3], 1);
-        if (hx_knob(p, "topo", 0) & 4) setenv("PARSEC_MCA_runtime_vpmap", "flat", 1); else unsetenv("PARSEC_MCA_runtime_vpmap");
+        if (hx_knob(p, "topo", 0) >= 3) setenv("PARSEC_MCA_runtime_vpmap", "flat", 1); else unsetenv("PARSEC_MCA_runtime_vpmap");
     }
     simmpi_cfg_t cfg;
     memset(&cfg, 0, sizeof(cfg));
@@ -565,6 +616,7 @@ static void run(const hx_plan_t *p, hx_result_t *res)
                 lost, first, t->prio, t->vp, t->dist, t->via_flush ? "__parsec_schedule_flush_private" : "schedule", t->call, CALLS[t->call].api, CALLS[t->call].target, CALLS[t->call].n, t->pos);
     }
     if (!res->vclass && !SH.done) hx_fail(res, "rank-not-finished", "the driver did not reach the end of its program");
+    if (res->vclass && flushed_multi) { size_t l = strlen(res->detail); snprintf(res->detail + l, sizeof(res->detail) - l, " [after-flush-of-retained-task-chopped-off-a-multi-task-ring]"); }
     uint64_t ns = 0, nl = 0;
     for (int i = 0; i < SH.ntasks; i++) { ns += (uint64_t)TI[i].nsched; nl += (uint64_t)TI[i].nsel; }
     hx_hash(res, ns << 32 ^ nl);
@@ -573,7 +625,7 @@ static void run(const hx_plan_t *p, hx_result_t *res)
 static void annotate(const hx_plan_t *p, char *buf, size_t n)
 {
     plan_to_shared(p);
-    snprintf(buf, n, "[sched=%s streams=%d vp=%d keep=%d clients=%d]", SCHEDS[SCHED], SH.nstreams, SH.nvp, (int)hx_knob(p, "keep", 1), SH.nclients);
+    snprintf(buf, n, "[sched=%s streams=%d vp=%d keep=%d clients=%d%s]", SCHEDS[SCHED], SH.nstreams, SH.nvp, (int)hx_knob(p, "keep", 1), SH.nclients, FLUSH_MULTI ? " flush_multi=1" : "");
 }
 
 static void describe_abort(char *buf, size_t n)
@@ -581,7 +633,8 @@ static void describe_abort(char *buf, size_t n)
     int pend = 0, running = 0;
     for (int i = 0; i < SH.ntasks; i++) pend += TI[i].state == T_PENDING;
     for (int ci = 0; ci < SCH_MAX_THR; ci++) if (CL[ci].used && !CL[ci].done) running++;
-    snprintf(buf, n, "sched=%s: %d client(s) still inside their program, %d tasks pending, %d schedule/flush calls made", SCHEDS[SCHED], running, pend, ncalls);
+    snprintf(buf, n, "sched=%s: %d client(s) still inside their program, %d tasks pending, %d schedule/flush calls made%s", SCHEDS[SCHED], running, pend, ncalls,
+             flushed_multi ? " [after-flush-of-retained-task-chopped-off-a-multi-task-ring]" : "");
 }
 
 static void tune(const hx_plan_t *p, sim_params_t *sp)
@@ -590,9 +643,18 @@ static void tune(const hx_plan_t *p, sim_params_t *sp)
     sp->max_steps = (uint64_t)hx_knob(p, "max_steps", 60000000);
 }
 
-static const hx_harness_t H = {
+static hx_harness_t H = {
     .property = "C08", .name = "sched", .opnames = opnames, .nopnames = OP_N,
-    .est_steps = 600000, .max_steps = 60000000, .gap_lo = 60, .gap_hi = 30000, .fork_per_run = 1, .gen = gen, .run = run, .init = init, .tune = tune,
-    .describe_abort = describe_abort, .annotate = annotate, .probe_names = probe_names, .nprobes = PR_N,
+    .est_steps = 50000, .max_steps = 60000000, .gap_lo = 25, .gap_hi = 10000, .fork_per_run = 1, .gen = gen, .run = run, .init = init, .tune = tune,
+    .describe_abort = describe_abort, .annotate = annotate,
 };
-int main(int argc, char **argv) { return hx_main(argc, argv, &H); }
+int main(int argc, char **argv)
+{
+    int prop = 8;
+    for (int i = 1; i + 1 < argc; i++) if (!strcmp(argv[i], "--knob") && !strncmp(argv[i + 1], "prop=", 5)) prop = atoi(argv[i + 1] + 5);
+    probes_select(prop);
+    H.property = prop == 9 ? "C09" : "C08";
+    H.probe_names = probe_names;
+    H.nprobes = nprobes;
+    return hx_main(argc, argv, &H);
+}
